@@ -318,7 +318,7 @@ func TestDriver(t *testing.T) {
 			switch num(0) {
 			case 0: // create: [0, mode, req]  mode 0 registered only, 1 spawn now + opt-in (launches), 2 spawn now without opt-in (launch fails)
 				mode, req := num(1), parseHalves(a[2])
-				msg := &providertypes.MsgCreateConsumer{Submitter: owner, ChainId: "chain-" + cid(created),
+				msg := &providertypes.MsgCreateConsumer{Submitter: owner, ChainId: "chain" + cid(created) + "-1",
 					Metadata:             providertypes.ConsumerMetadata{Name: "n", Description: "d", Metadata: "m"},
 					InfractionParameters: mkReq(req)}
 				if mode != 0 {
